@@ -1034,6 +1034,10 @@ def mk_server_cfg(args: ArgsType) -> configparser.SectionProxy:
             value = args[opt]
             if test_cfg_val(opt, value):
                 cfg[opt] = arg2config(opt, opt_type, value)
+            elif value not in NULL_ARGS:
+                # Value in effect is the default, so it isn't written; don't
+                # leave behind a stale override from an earlier run.
+                USERCFG.remove_option(server, opt)
 
     return cfg
 
